@@ -1,4 +1,6 @@
 import PGV.Proofs.Size
+import PGV.Proofs.Atoi
+import PGV.Proofs.LangEq
 
 /-!
 # C01 — size / comparison rules judge by the documented measure with exact boundaries
@@ -194,6 +196,101 @@ theorem C01_verdict (ext : Ext) (text obj field : Bytes) (v : GoVal) (r : SizeRu
     simp only [Judged]
     split <;> simp_all [eqRule]
   · cases hk
+
+/-! ### the statement over rule *texts*: `key=lo`, `key=lo~hi`, with or without `|message` -/
+
+def _root_.PGV.Spec.Size.SizeRule.key : SizeRule → Bytes
+  | .to => b! "to" | .ge => b! "ge" | .le => b! "le" | .oto => b! "oto"
+  | .gt => b! "gt" | .lt => b! "lt" | .eq => b! "eq" | .noeq => b! "noeq"
+
+def _root_.PGV.Spec.Size.SizeRule.isRange (r : SizeRule) : Bool := r == .to || r == .oto
+
+/-- the bounds written in decimal, as a tag author writes them -/
+def boundsText (r : SizeRule) (lo hi : Int) : Bytes :=
+  if r.isRange then intToBytes lo ++ (126 : UInt8) :: intToBytes hi else intToBytes lo
+
+/-- the rule text of the documented shape; `msg = []` means no custom message -/
+def ruleText (r : SizeRule) (lo hi : Int) (msg : Bytes) : Bytes :=
+  r.key ++ EQ :: (if msg = [] then boundsText r lo hi else boundsText r lo hi ++ BAR :: msg)
+
+theorem intToBytes_chars (z : Int) : ∀ c ∈ intToBytes z, c = 45 ∨ Lang.isDigit c = true := by
+  intro c hc
+  have hd := (PGV.Proofs.Atoi.natToBytes_spec z.natAbs).2.1
+  rw [List.all_eq_true] at hd
+  unfold intToBytes at hc
+  split at hc
+  · rcases List.mem_cons.mp hc with h | h
+    · exact Or.inl h
+    · exact Or.inr (hd c h)
+  · exact Or.inr (hd c hc)
+
+theorem intToBytes_no (z : Int) (c : UInt8) (h45 : c ≠ 45) (hd : Lang.isDigit c = false) : c ∉ intToBytes z := by
+  intro hc
+  rcases intToBytes_chars z c hc with h | h
+  · exact h45 h
+  · rw [hd] at h; cases h
+
+theorem boundsText_noBar (r : SizeRule) (lo hi : Int) : BAR ∉ boundsText r lo hi := by
+  unfold boundsText
+  split
+  · intro h
+    rcases List.mem_append.mp h with h | h
+    · exact intToBytes_no lo BAR (by decide) (by decide) h
+    · rcases List.mem_cons.mp h with h | h
+      · exact absurd h (by decide)
+      · exact intToBytes_no hi BAR (by decide) (by decide) h
+  · exact intToBytes_no lo BAR (by decide) (by decide)
+
+theorem parseBounds_boundsText (r : SizeRule) (lo hi : Int)
+    (l1 : int64Min ≤ lo) (l2 : lo ≤ int64Max) (h1 : int64Min ≤ hi) (h2 : hi ≤ int64Max) :
+    parseBounds r (boundsText r lo hi) = some (lo, if r.isRange then hi else 0) := by
+  unfold parseBounds boundsText SizeRule.isRange
+  by_cases hr : (r == .to || r == .oto) = true
+  · simp only [hr, if_true]
+    rw [PGV.Proofs.LangEq.splitByte_append 126 _ _ (intToBytes_no lo 126 (by decide) (by decide)),
+      PGV.Proofs.LangEq.splitByte_not_mem 126 _ (intToBytes_no hi 126 (by decide) (by decide))]
+    simp only [PGV.Proofs.Atoi.atoi_intToBytes lo l1 l2, PGV.Proofs.Atoi.atoi_intToBytes hi h1 h2]
+    rfl
+  · simp only [hr, Bool.false_eq_true, if_false]
+    simp only [PGV.Proofs.Atoi.atoi_intToBytes lo l1 l2]
+    rfl
+
+theorem parse_ruleText (r : SizeRule) (lo hi : Int) (msg : Bytes) :
+    (parseValidNameKV (ruleText r lo hi msg)).1 = r.key ∧
+    (parseValidNameKV (ruleText r lo hi msg)).2.1 = boundsText r lo hi := by
+  have he : EQ ∉ r.key := by cases r <;> decide
+  have hb : BAR ∉ r.key := by cases r <;> decide
+  unfold ruleText
+  by_cases hm : msg = []
+  · simp only [hm, if_true]
+    rw [PGV.Proofs.RuleText.parse_key_val _ _ he hb (boundsText_noBar r lo hi)]
+    exact ⟨rfl, rfl⟩
+  · simp only [hm, if_false]
+    rw [PGV.Proofs.RuleText.parse_key_val_msg _ _ _ he hb (boundsText_noBar r lo hi) hm]
+    exact ⟨rfl, rfl⟩
+
+/-- **C01 over rule texts.**  For each of the eight rules, every pair of 64-bit integer bounds
+written in decimal, with or without a custom message, and every value that has a measure: the
+registered rule function, run on the text `key=lo[~hi][|msg]`, writes a clause exactly when the
+measure lies outside the set the rule states. -/
+theorem C01_verdict_text (ext : Ext) (obj field msg : Bytes) (v : GoVal) (r : SizeRule) (lo hi : Int) (m : Measure)
+    (l1 : int64Min ≤ lo) (l2 : lo ≤ int64Max) (h1 : int64Min ≤ hi) (h2 : hi ≤ int64Max)
+    (hm : Spec.Size.measure v = some m) (hx : boundsExact v lo (if r.isRange then hi else 0) = true) :
+    ∃ run, builtin r.key = some (.fn run) ∧
+      Judged (run ext (ruleText r lo hi msg) obj field v) (inSet r lo (if r.isRange then hi else 0) m = false) := by
+  obtain ⟨pk, pa⟩ := parse_ruleText r lo hi msg
+  have hk : SizeRule.ofKey (parseValidNameKV (ruleText r lo hi msg)).1 = some r := by
+    rw [pk]; cases r <;> decide
+  have hb : parseBounds r (parseValidNameKV (ruleText r lo hi msg)).2.1 = some (lo, if r.isRange then hi else 0) := by
+    rw [pa]; exact parseBounds_boundsText r lo hi l1 l2 h1 h2
+  have := C01_verdict ext (ruleText r lo hi msg) obj field v r lo _ m hk hb hm hx
+  rw [pk] at this
+  exact this
+
+-- the texts are the ones a tag author writes
+example : ruleText .to 1 10 (b! "bad") = b! "to=1~10|bad" := by decide
+example : ruleText .noeq (-3) 0 [] = b! "noeq=-3" := by decide
+example : ruleText .oto (-9223372036854775808) 9223372036854775807 [] = b! "oto=-9223372036854775808~9223372036854775807" := by decide
 
 /-- the verdict depends on the value only through its measure: integer width, signedness, and the
 kind carrying the measure are irrelevant (e.g. `int8 5`, `uint64 5`, a 5-rune string, a slice of
